@@ -10,4 +10,15 @@ namespace Shovel.Manager
 
 theorem serve_after_first_run : Shovel.Gen.Routes.serveAfterFirstRun = true := by decide
 
+/-- **file_config_reaches_manager_unchanged** (C20): in `main` the configuration decoded from the file is
+    validated (`ValidateFix`), read (`PGURL`, `DDL`, `Migrate`) and handed to `NewManager` and `web.New` — and
+    nothing else: no statement assigns to it or to a field of it between the decoder and the manager. So the
+    `file` argument of the model's `merge` IS the validated file — disabled entries included, which is what lets
+    a disabled file entry shadow an enabled database row of the same name (`merge_precedence`). -/
+theorem file_config_reaches_manager_unchanged :
+    Shovel.Gen.Routes.mainConfUses =
+      ["call: json.NewDecoder(f).Decode(&conf)", "call: config.ValidateFix(&conf)", "call: wos.Getenv(conf.PGURL)",
+       "call: config.DDL(conf)", "call: config.Migrate(ctx, dbtx, conf)", "call: shovel.NewManager(ctx, pg, conf)",
+       "call: web.New(mgr, &conf, pg)"] := by decide +kernel
+
 end Shovel.Manager
